@@ -111,6 +111,13 @@ def job_cfg(job):
             if diff:
                 bad("server-view-of-client-settings-differs", "client local_settings vs server remote_settings: %r" % diff,
                     keys=",".join(str(k) for k in sorted(diff)))
+            # the named accessors the library itself enforces with say the same as the mapping, at both ends
+            for who, obj in (("server remote_settings", s.remote_settings), ("client local_settings", c.local_settings)):
+                for code, attr in ((1, "header_table_size"), (2, "enable_push"), (3, "max_concurrent_streams"), (4, "initial_window_size"),
+                                   (5, "max_frame_size"), (6, "max_header_list_size"), (8, "enable_connect_protocol")):
+                    if code in local and getattr(obj, attr) != local[code]:
+                        bad("settings-accessor-differs", "%s.%s is %r, the client was configured with %r" % (who, attr, getattr(obj, attr), local[code]),
+                            attr=attr)
             outcomes["configs"] = outcomes.get("configs", 0) + 1
             # in force at the server
             iws = local[4]
